@@ -200,6 +200,14 @@ func tryAlternativeECDSACurves(pub *ecdsa.PublicKey, digest, sig []byte, r, s *b
 			continue
 		}
 
+		// the public key was decoded for the specified curve: it can only be used with an
+		// alternative curve if it is a point of that curve as well (otherwise the generic
+		// curve implementations panic on the invalid point)
+		if !altCurve.IsOnCurve(pub.X, pub.Y) {
+			slog.Info("VerifySignature public key is not a point of the alternative curve", "curve", altCurveName)
+			continue
+		}
+
 		altPub := &ecdsa.PublicKey{
 			Curve: altCurve,
 			X:     pub.X,
